@@ -535,6 +535,9 @@ func (gen *generator) irFuncHeader(new *ir.Func, old ast.FuncHeader) error {
 	ps := old.Params()
 	if oldParams := ps.Params(); len(oldParams) > 0 {
 		new.Params = make([]*ir.Param, len(oldParams))
+		// Parameter names must be unique (the parameters of a function declaration
+		// are not indexed with the locals of a body, which would report it).
+		paramNames := make(map[string]bool)
 		for i, oldParam := range oldParams {
 			// Type.
 			typ, err := gen.irType(oldParam.Typ())
@@ -546,6 +549,12 @@ func (gen *generator) irFuncHeader(new *ir.Func, old ast.FuncHeader) error {
 			if n, ok := oldParam.Name(); ok {
 				ident := localIdent(n)
 				param.LocalIdent = ident
+				if !ident.IsUnnamed() {
+					if paramNames[ident.LocalName] {
+						return errors.Errorf("local identifier %q already present; parameter of %q", ident.Ident(), new.Ident())
+					}
+					paramNames[ident.LocalName] = true
+				}
 			}
 			// (optional) Parameter attributes.
 			if oldParamAttrs := oldParam.Attrs(); len(oldParamAttrs) > 0 {
